@@ -318,6 +318,8 @@ impl Calibrations {
         previous_calibrations: &[Instruction],
         build_source_map: bool,
     ) -> Result<Option<CalibrationExpansionOutput>, ProgramError> {
+        #[cfg(rigetti_quil_rs_verif)]
+        verif_hooks::record_expand_inner(previous_calibrations.len());
         if previous_calibrations.contains(instruction) {
             return Err(ProgramError::RecursiveCalibration(instruction.clone()));
         }
@@ -659,6 +661,34 @@ impl Calibrations {
                     .map(Instruction::MeasureCalibrationDefinition),
             )
             .collect()
+    }
+}
+
+/// Verification hooks (off unless built with `--cfg rigetti_quil_rs_verif`): thread-local counters
+/// of calibration-expansion steps and the deepest expansion path seen.
+#[cfg(rigetti_quil_rs_verif)]
+pub mod verif_hooks {
+    use std::cell::Cell;
+
+    thread_local! {
+        static CALLS: Cell<u64> = const { Cell::new(0) };
+        static MAX_DEPTH: Cell<usize> = const { Cell::new(0) };
+    }
+
+    pub(super) fn record_expand_inner(depth: usize) {
+        CALLS.with(|c| c.set(c.get() + 1));
+        MAX_DEPTH.with(|d| d.set(d.get().max(depth)));
+    }
+
+    /// Reset both counters for the current thread.
+    pub fn reset() {
+        CALLS.with(|c| c.set(0));
+        MAX_DEPTH.with(|d| d.set(0));
+    }
+
+    /// `(number of expansion steps, deepest expansion path)` since the last [`reset`].
+    pub fn read() -> (u64, usize) {
+        (CALLS.with(Cell::get), MAX_DEPTH.with(Cell::get))
     }
 }
 
